@@ -105,6 +105,22 @@ def strategy(tier):
     return _scn()
 
 
+def enumerated(tier):
+    tree = {"a.mov": "x", "b.mov": "y", "d": {"c.mov": "z", "e.mov": ""}, ".h.mov": "hidden"}
+    base = {"tree": tree, "gens": [["md5"]], "alter": 0, "child": None, "empty_file": None, "sf_generation": None}
+    two_steps = [{"renames": [["a.mov", "a1.mov"], ["d/c.mov", "c1.mov"]], "new": [], "formats": ["md5"], "n": False, "newdir": False, "back": False},
+                 {"renames": [["a1.mov", "d/a2.mov"], ["c1.mov", "d/c.mov"]], "new": ["d/fresh.mov"], "formats": ["md5"], "n": False, "newdir": False, "back": True}]
+    for plain in (False, True):
+        for spell in ("abs", "dot", "rel", "slash"):
+            for fm2 in (["md5"], ["xxh64"], ["sha1", "md5"]):
+                rounds = [dict(two_steps[0]), dict(two_steps[1], formats=fm2)]
+                yield dict(base, rounds=rounds, plain_create_between=plain, spell=spell)
+    for sf in (0, 1, 3):
+        yield dict(base, rounds=[dict(two_steps[0], formats=["xxh64"], n=True)], plain_create_between=True, spell="abs", sf_generation=sf)
+    yield dict(base, rounds=[{"renames": [["d/e.mov", "moved empty.mov"], [".h.mov", "d/.h2.mov"]], "new": [], "formats": ["xxh64"], "n": False, "newdir": False, "back": False}],
+               plain_create_between=True, spell="abs", gens=[["md5"], ["md5", "sha1"]])
+
+
 def _distinct(tree, counter):
     out = {}
     for n, c in tree.items():
